@@ -216,21 +216,23 @@ theorem deg0_evkVal (sIn sOut : α) : ∀ (shape : List Nat) (crp w e : Mat α),
       exact ⟨map3_singleton_length _ k c w e hc.1 hw.1 he.1, ih⟩
 
 /-- `evkGenShare` succeeds on well-formed inputs and writes `evkVal`-shaped data of degree zero -/
-theorem evkGenShare_ok (skInLvl skOutLvl : Nat) (sIn sOut : α) (crp w e : Mat α) (out : GShare α)
-    (hl : out.levelQ ≤ min skInLvl skOutLvl) (hs : shapeOf out.val = shapeOf crp) :
-    evkGenShare skInLvl skOutLvl sIn sOut crp w e out =
+theorem evkGenShare_ok (skInLvl skOutLvl : Nat) (skInLvlP skOutLvlP : Int) (sIn sOut : α)
+    (crp w e : Mat α) (out : GShare α)
+    (hl : out.levelQ ≤ min skInLvl skOutLvl) (hlp : out.levelP ≤ min skInLvlP skOutLvlP)
+    (hs : shapeOf out.val = shapeOf crp) :
+    evkGenShare skInLvl skOutLvl skInLvlP skOutLvlP sIn sOut crp w e out =
       .ok { out with val := matMap3 (fun a w e => [evkShareRow a sOut e w sIn]) crp w e } := by
   have hlen : out.val.length = crp.length := by
     have := congrArg List.length hs
     simpa [shapeOf] using this
-  simp [evkGenShare, Nat.not_lt.mpr hl, hlen, hs]
+  simp [evkGenShare, Nat.not_lt.mpr hl, Int.not_lt.mpr hlp, hlen, hs]
 
-/-! ### `GenEvaluationKey` on a uniform decomposition -/
+/-! ### `GenEvaluationKey` copies every row -/
 
 omit [Add α] [Mul α] [Sub α] in
-theorem keyRow_uniform : ∀ (k : Nat) (m : List (List α)) (p : List α) (kk : List (List α)),
+theorem keyRow_ok : ∀ (k : Nat) (m : List (List α)) (p : List α) (kk : List (List α)),
     m.map List.length = List.replicate k 1 → p.length = k → kk.map List.length = List.replicate k 2 →
-    keyRow k m p kk = some (List.zipWith (fun m a => [m.headD a, a]) m p)
+    keyRow m p kk = some (List.zipWith (fun m a => [m.headD a, a]) m p)
   | 0, m, p, kk, hm, hp, hk => by
       have : m = [] := by simpa using hm
       subst this
@@ -242,23 +244,24 @@ theorem keyRow_uniform : ∀ (k : Nat) (m : List (List α)) (p : List α) (kk : 
         Nat.add_right_cancel_iff] at hm hp hk
       obtain ⟨m0, rfl⟩ := List.length_eq_one_iff.mp hm.1
       obtain ⟨b, a, rfl⟩ := List.length_eq_two.mp hk.1
-      simp [keyRow, setKeyEntry, keyRow_uniform k ms ps es hm.2 hp hk.2]
+      simp [keyRow, setKeyEntry, keyRow_ok k ms ps es hm.2 hp hk.2]
 
 omit [Add α] [Mul α] [Sub α] in
-theorem keyRows_uniform (k : Nat) : ∀ (r : Nat) (m : Mat (List α)) (p : Mat α) (kk : Mat (List α)),
-    Deg0 (List.replicate r k) m → shapeOf p = List.replicate r k →
-    kk.map (fun row => row.map List.length) = List.replicate r (List.replicate k 2) →
-    keyRows k m p kk = some (evkAssemble m p)
-  | 0, m, p, kk, hm, _, hk => by
+/-- for ANY decomposition shape (ragged or not) -/
+theorem keyRows_ok : ∀ (shape : List Nat) (m : Mat (List α)) (p : Mat α) (kk : Mat (List α)),
+    Deg0 shape m → shapeOf p = shape →
+    kk.map (fun row => row.map List.length) = shape.map (fun k => List.replicate k 2) →
+    keyRows m p kk = some (evkAssemble m p)
+  | [], m, p, kk, hm, _, hk => by
       have : m = [] := by simpa [Deg0] using hm
       subst this
       have : kk = [] := by simpa using hk
       subst this
       simp [keyRows, evkAssemble]
-  | r + 1, m :: ms, p :: ps, e :: es, hm, hp, hk => by
-      simp only [Deg0, shapeOf, List.map_cons, List.replicate_succ, List.cons.injEq] at hm hp hk
-      have h1 := keyRow_uniform k m p e hm.1 hp.1 hk.1
-      have h2 := keyRows_uniform k r ms ps es (by simpa [Deg0] using hm.2) (by simpa [shapeOf] using hp.2) hk.2
+  | k :: shape, m :: ms, p :: ps, e :: es, hm, hp, hk => by
+      simp only [Deg0, shapeOf, List.map_cons, List.cons.injEq] at hm hp hk
+      have h1 := keyRow_ok k m p e hm.1 hp.1 hk.1
+      have h2 := keyRows_ok shape ms ps es (by simpa [Deg0] using hm.2) (by simpa [shapeOf] using hp.2) hk.2
       simp [keyRows, h1, h2, evkAssemble]
 
 end shapes
